@@ -14,3 +14,4 @@ import BqlVerif.Properties.C18
 import BqlVerif.Properties.C12
 import BqlVerif.Properties.C20
 import BqlVerif.Properties.C19
+import BqlVerif.Properties.C16
